@@ -41,6 +41,27 @@ def scenarios(rng, tier):
                 fr = (emit(Y, own, [(rng.randrange(2), 0, mac(7), mac(8))], seq=rng.randrange(1, 65536), tos=tos) if kind == 'emit'
                       else query(Y, own, seq=rng.randrange(1, 65536), tos=tos) if kind == 'query' else qlt(Y, own, rng.choice([14, 17, 19]), 0, seq=rng.randrange(1, 65536), tos=tos))
             s.frame(0, fr); tr.feed(dec(fr + bytes(8)))
+    # long runs (counters of 7 / 8 / 16 bits), three and four interfaces, refused transmissions
+    for nrep in (126, 127, 128, 129, 255, 256, 257):
+        for kind in ('disc', 'mixed'):
+            s.start('long_%s_%d' % (kind, nrep)); A, Bm = mac(1), mac(2)
+            for i in range(nrep):
+                s.frame(0, discover(A, gen=1 + i % 3, seq=i + 1))
+                if kind == 'mixed' and i % 5 == 0: s.frame(0, emit(A, own, [(1, 0, mac(7), mac(8))], seq=i + 1))
+            s.frame(0, discover(Bm, gen=9)); s.frame(0, discover(A, gen=9)); s.frame(0, reset(A)); s.frame(0, discover(Bm, gen=9))
+    for k in range(10 if tier == 'quick' else 200):
+        s.start('multi_%d' % k); trs = {c: MapperTracker() for c in range(4)}
+        for i in range(60):
+            c = rng.randrange(4) if k % 2 else rng.choice([0, 1, 1, 2, 0, 3]); X = rng.choice(st[:3]); r = rng.random()
+            fr = discover(X, tos=rng.choice([0, 0, 1]), gen=rng.randrange(65536)) if r < 0.6 else reset(X, tos=rng.choice([0, 1])) if r < 0.7 else probe(X, own_of(c), X, own_of(c)) if r < 0.85 else generic(rng.randrange(256), rng.choice([2, 3]), X, X, own_of(c), own_of(c))
+            s.frame(c, fr)
+    for k in range(8 if tier == 'quick' else 100):
+        s.start('txfail_%d' % k); A, Bm = mac(1), mac(2)
+        s.frame(0, discover(A, gen=1))
+        for i in range(6):
+            if rng.random() < 0.5: s.op('failsend', 1)
+            s.frame(0, discover(rng.choice([A, A, Bm]), gen=1 + i, tos=rng.choice([0, 1])))
+        s.op('failsend clear'); s.frame(0, discover(Bm, gen=7)); s.frame(0, discover(A, gen=7))
     batches = [(s.text(), {})]
     # sweep: quick = every (ToS, opcode) pair once in one of the two states (65536 cells), alternating; thorough = both states
     M, Z = mac(1), mac(2)
@@ -64,10 +85,11 @@ def project(blk, name, meta):
     if blk.op.startswith('frame'): return bool(blk.sends())
     return ()
 def oracle(name, ib, mb, meta):
-    fails = []; tr = MapperTracker()
+    fails = []; trs = {}
     for i, b in enumerate(ib):
         if not b.op.startswith('frame') or b.fault: continue
         ctx, fr = frame_of(b); d = dec(fr + bytes(max(0, 36 - len(fr))))
+        tr = trs.setdefault(ctx, MapperTracker())
         sn = sends_of(b)
         if d['tos'] in (0, 1) and d['opc'] == 0:
             exp = tr.expect_reply(d); got = any(dec(o) and dec(o)['opc'] == 1 for _, _, o in sn)
